@@ -1,0 +1,305 @@
+//go:build verif
+// +build verif
+
+// Verification hook (property C15): builds the share-collecting round of block signing (round1,
+// inside a SignParty exactly as loadOrNewSignParty/round0 leave it when the proposal has been
+// checked) from supplied group info, previous and proposed headers and a stub chain, feeds it
+// ConsensusVerifyMessages through the party's own Update, and exposes what was collected.
+// Nothing here changes the behaviour of the code under test; every function only calls it.
+// Add-only; compiled only with -tags verif.
+package logical
+
+import (
+	"fmt"
+	"sort"
+	"sync"
+	"time"
+
+	"com.tuntun.rangers/node/src/common"
+	"com.tuntun.rangers/node/src/consensus/groupsig"
+	"com.tuntun.rangers/node/src/consensus/model"
+	"com.tuntun.rangers/node/src/consensus/net"
+	"com.tuntun.rangers/node/src/core"
+	"com.tuntun.rangers/node/src/middleware/types"
+)
+
+// ---- recording logger: keeps (level, format string, rendered text) of every call ----
+
+type VerifR1LogLine struct {
+	Level  string
+	Format string
+	Text   string
+}
+
+type VerifR1Logger struct {
+	mu    sync.Mutex
+	lines []VerifR1LogLine
+}
+
+func (l *VerifR1Logger) add(level, format string, params ...interface{}) {
+	l.mu.Lock()
+	l.lines = append(l.lines, VerifR1LogLine{level, format, fmt.Sprintf(format, params...)})
+	l.mu.Unlock()
+}
+func (l *VerifR1Logger) Tracef(format string, params ...interface{}) {
+	l.add("trace", format, params...)
+}
+func (l *VerifR1Logger) Debugf(format string, params ...interface{}) {
+	l.add("debug", format, params...)
+}
+func (l *VerifR1Logger) Infof(format string, params ...interface{}) { l.add("info", format, params...) }
+func (l *VerifR1Logger) Warnf(format string, params ...interface{}) error {
+	l.add("warn", format, params...)
+	return nil
+}
+func (l *VerifR1Logger) Errorf(format string, params ...interface{}) error {
+	l.add("error", format, params...)
+	return nil
+}
+func (l *VerifR1Logger) Debug(v ...interface{}) { l.add("debug", "%s", fmt.Sprint(v...)) }
+func (l *VerifR1Logger) Info(v ...interface{})  { l.add("info", "%s", fmt.Sprint(v...)) }
+func (l *VerifR1Logger) Warn(v ...interface{}) error {
+	l.add("warn", "%s", fmt.Sprint(v...))
+	return nil
+}
+func (l *VerifR1Logger) Error(v ...interface{}) error {
+	l.add("error", "%s", fmt.Sprint(v...))
+	return nil
+}
+
+// Take returns the lines recorded since the previous Take.
+func (l *VerifR1Logger) Take() []VerifR1LogLine {
+	l.mu.Lock()
+	defer l.mu.Unlock()
+	r := l.lines
+	l.lines = nil
+	return r
+}
+
+// ---- stub chain: only what round1/round2 call ----
+
+type verifR1Chain struct {
+	core.BlockChain
+	mu        sync.Mutex
+	exists    bool
+	generated []types.BlockHeader
+	added     int
+	addedCh   chan struct{}
+}
+
+func (c *verifR1Chain) HasBlockByHash(hash common.Hash) bool { return c.exists }
+func (c *verifR1Chain) QueryBlockByHash(hash common.Hash) *types.Block {
+	if !c.exists {
+		return nil
+	}
+	return &types.Block{Header: &types.BlockHeader{Hash: hash}}
+}
+func (c *verifR1Chain) GenerateBlock(bh types.BlockHeader) *types.Block {
+	c.mu.Lock()
+	c.generated = append(c.generated, bh)
+	c.mu.Unlock()
+	return &types.Block{Header: &bh}
+}
+func (c *verifR1Chain) AddBlockOnChain(b *types.Block) types.AddBlockResult {
+	c.mu.Lock()
+	c.added++
+	c.mu.Unlock()
+	c.addedCh <- struct{}{}
+	return types.AddBlockSucc
+}
+
+// ---- stub network: records key requests and block broadcasts ----
+
+type VerifR1Net struct {
+	net.NetworkServer
+	mu         sync.Mutex
+	Asked      []string
+	Broadcasts int
+}
+
+func (n *VerifR1Net) AskSignPkMessage(msg *model.SignPubkeyReqMessage, receiver groupsig.ID) {
+	n.mu.Lock()
+	n.Asked = append(n.Asked, receiver.GetHexString())
+	n.mu.Unlock()
+}
+func (n *VerifR1Net) BroadcastNewBlock(cbm *model.ConsensusBlockMessage) {
+	n.mu.Lock()
+	n.Broadcasts++
+	n.mu.Unlock()
+}
+
+// ---- the round under test ----
+
+type VerifR1Config struct {
+	Self        groupsig.ID
+	Group       *model.GroupInfo
+	PreBH, BH   *types.BlockHeader
+	BlockExists bool // the chain already holds a block with BH.Hash
+	Net         *VerifR1Net
+	// verify messages that arrived while round0 was still checking the proposal
+	// (baseParty.StoreMessage); round1.Start replays them
+	Future []*model.ConsensusVerifyMessage
+}
+
+type VerifR1 struct {
+	party *SignParty
+	r1    *round1
+	chain *verifR1Chain
+	Log   *VerifR1Logger
+}
+
+// a message no round accepts: makes baseParty.Update run only its "can the party proceed" loop
+type verifR1Tick struct{}
+
+func (verifR1Tick) GenHash() common.Hash { return common.Hash{} }
+func (verifR1Tick) GetMessageID() string { return "verif-tick" }
+
+// VerifR1New builds a SignParty whose current round is round1 in the state round0 hands over after
+// checkBlock succeeded (bh, preBH, group set; canProcessed reset by NextRound), and starts the round.
+func VerifR1New(cfg VerifR1Config) (*VerifR1, *Error) {
+	lg := &VerifR1Logger{}
+	ch := &verifR1Chain{exists: cfg.BlockExists, addedCh: make(chan struct{}, 16)}
+	var ns net.NetworkServer
+	if cfg.Net != nil {
+		ns = cfg.Net
+	}
+	party := &SignParty{blockchain: ch, mi: cfg.Self, netServer: ns,
+		baseParty: baseParty{
+			logger:         lg,
+			mtx:            sync.Mutex{},
+			futureMessages: make(map[string]model.ConsensusMessage),
+			Done:           make(chan byte, 1),
+			Err:            make(chan error, 1),
+			id:             cfg.BH.Hash.String(),
+			started:        true,
+		},
+	}
+	party.ChangedId = make(chan string, 1)
+	r0 := party.FirstRound().(*round0)
+	if err := r0.Start(); err != nil {
+		return nil, err
+	}
+	r0.bh, r0.preBH, r0.group = cfg.BH, cfg.PreBH, cfg.Group
+	for _, m := range cfg.Future {
+		party.futureMessages[m.GetMessageID()] = m
+	}
+	// round0.NextRound without Close (nothing was subscribed on the notify bus)
+	r0.started = false
+	r0.canProcessed = false
+	r0.number = 1
+	r1 := &round1{round0: r0}
+	party.rnd = r1
+	v := &VerifR1{party: party, r1: r1, chain: ch, Log: lg}
+	if err := r1.Start(); err != nil {
+		return v, err
+	}
+	return v, nil
+}
+
+type VerifR1Step struct {
+	Logs []VerifR1LogLine
+	Err  string // error the party reported on its Err channel during this step ("" = none)
+	Done bool   // the party signalled Done during this step
+}
+
+func (v *VerifR1) collect() VerifR1Step {
+	st := VerifR1Step{}
+	select {
+	case e := <-v.party.Err:
+		st.Err = e.Error()
+		if st.Err == "" {
+			st.Err = "error"
+		}
+	default:
+	}
+	select {
+	case <-v.party.Done:
+		st.Done = true
+	default:
+	}
+	st.Logs = v.Log.Take()
+	return st
+}
+
+// Update hands one verify message to the party (baseParty.Update: CanAccept, round.Update, then the
+// advance loop into round2 when the round can proceed).
+func (v *VerifR1) Update(cvm *model.ConsensusVerifyMessage) VerifR1Step {
+	v.party.Update(cvm)
+	return v.collect()
+}
+
+// Tick runs only the advance loop (as the Update call that started round1 would have continued).
+func (v *VerifR1) Tick() VerifR1Step {
+	v.party.Update(verifR1Tick{})
+	return v.collect()
+}
+
+// UpdateRound calls round1.Update directly (no party, no recover).
+func (v *VerifR1) UpdateRound(cvm *model.ConsensusVerifyMessage) (VerifR1Step, bool) {
+	err := v.r1.Update(cvm)
+	st := VerifR1Step{Logs: v.Log.Take()}
+	if err != nil {
+		st.Err = err.Error()
+	}
+	return st, err != nil
+}
+
+func verifR1Keys(m map[string]groupsig.Signature) []string {
+	r := make([]string, 0, len(m))
+	for k := range m {
+		r = append(r, k)
+	}
+	sort.Strings(r)
+	return r
+}
+
+// GIDs / RIDs: hex ids of the senders whose block-signature / beacon shares are in the recovery sets.
+func (v *VerifR1) GIDs() []string { return verifR1Keys(v.r1.gSignGenerator.witnessSignMap) }
+func (v *VerifR1) RIDs() []string { return verifR1Keys(v.r1.rSignGenerator.witnessSignMap) }
+
+func (v *VerifR1) GShare(idHex string) (groupsig.Signature, bool) {
+	s, ok := v.r1.gSignGenerator.witnessSignMap[idHex]
+	return s, ok
+}
+func (v *VerifR1) RShare(idHex string) (groupsig.Signature, bool) {
+	s, ok := v.r1.rSignGenerator.witnessSignMap[idHex]
+	return s, ok
+}
+func (v *VerifR1) Threshold() int   { return v.r1.gSignGenerator.threshold }
+func (v *VerifR1) GRecovered() bool { return v.r1.gSignGenerator.SignRecovered() }
+func (v *VerifR1) RRecovered() bool { return v.r1.rSignGenerator.SignRecovered() }
+func (v *VerifR1) GSign() groupsig.Signature {
+	return v.r1.gSignGenerator.GetGroupSign()
+}
+func (v *VerifR1) RSign() groupsig.Signature {
+	return v.r1.rSignGenerator.GetGroupSign()
+}
+
+// Header returns the Signature and Random fields of the proposed header as the round left them.
+func (v *VerifR1) Header() ([]byte, []byte) { return v.r1.bh.Signature, v.r1.bh.Random }
+
+// RoundNumber: 1 while collecting, 2 in the finalizer, -1 when the party has no round left.
+func (v *VerifR1) RoundNumber() int {
+	if v.party.round() == nil {
+		return -1
+	}
+	return v.party.round().RoundNumber()
+}
+func (v *VerifR1) CanProceed() bool { return v.r1.canProcessed }
+
+// Generated returns the headers handed to BlockChain.GenerateBlock (the block is final for this node).
+func (v *VerifR1) Generated() []types.BlockHeader {
+	v.chain.mu.Lock()
+	defer v.chain.mu.Unlock()
+	return append([]types.BlockHeader(nil), v.chain.generated...)
+}
+
+// WaitAdded waits for the finalizer's goroutine to call AddBlockOnChain.
+func (v *VerifR1) WaitAdded(d time.Duration) bool {
+	select {
+	case <-v.chain.addedCh:
+		return true
+	case <-time.After(d):
+		return false
+	}
+}
